@@ -5,7 +5,6 @@
    RelEditSpec.brel_tree / bentry_tree as the operand trees. *)
 From V.model Require Import Base RelLex RelParse RelEdit RelEditSpec RelEditTree.
 From V.proofs Require Import BaseP RelEditP RelEditStP RelEditHistP RelEditTreeP RelEditReplaceP.
-Set Default Timeout 60.
 
 (* ------------------------------------------------------------------ one step on the relation under construction *)
 (* the register dst holds the root of tree te, a RELATION with children cs; the step makes them cs';
